@@ -576,6 +576,8 @@ pub const EVAL_LEXEMES: &[&str] = &[
     "string->list", "list->string", "string-copy", "substring", "exact->inexact", "sqrt", "abs", "min", "max",
     "x", "y", "f", "g", "k", "x", "f",
     "0", "1", "2", "-1", "10", "1/2", "1.5", "#t", "#f", "#\\a", "\"s\"", "\"\"", "'()", "()", "#()",
+    // literals with prefixes in both cases, and character literals at the edges of the scalar range
+    "#x1F", "#X1F", "#e1.5", "#E1", "#b101", "#B101", "#o17", "#D9", "#i1/2", "#e#x10", "#\\x41", "#\\x110000", "#\\x100000000", "#\\X41",
     "(lambda (x) x)", "(lambda args args)", "(define (f x)", "(define x", "(let ((x 1))", "(let loop ((x 0))", "(f x)", "(loop",
     "(if x", "(call/cc (lambda (k)", "(k 1)", "(set! x", "(cond ((f x)", "(else", "`(1 ,x)", "(x)", "((f))",
 ];
